@@ -637,7 +637,7 @@ func maxCollection(env map[string]*V) int {
 func RealiseEnv(env map[string]*V) map[string]any {
 	h := fnv.New32a()
 	h.Write([]byte(EncEnv(env)))
-	nilPtrFlavor.Store(int32(h.Sum32() % 5))
+	nilPtrFlavor.Store(int32(h.Sum32() % nilPtrFlavors))
 	out := make(map[string]any, len(env))
 	for _, k := range sortedKeys(env) {
 		out[k] = env[k].Realise()
